@@ -296,6 +296,20 @@ let find_fn name a : lstate -> (lstate * z list) res =
   | "fdel" | "cdel" | "c1del" -> (fun s -> find_deletes h s a)
   | _ -> failwith "find_fn"
 
+(* the helper calls as steps of XHistory.v (the functions the extended history theorem is about) *)
+let xop_of name a : xop =
+  match name with
+  | "trimo" -> XTrimByOffset a | "trimc" -> XTrimByCount a | "trims" -> XTrimBySize a | "trima" -> XTrimByAge a
+  | "cupd" -> XCompactUpdates a | "cdel" -> XCompactDeletes a
+  | _ -> failwith "xop_of"
+
+let xdel_of (r : lstate * xout) : ((lstate * msg list) * z) * ierr option =
+  match r with
+  | (s', XDel (ms, sz, eo)) -> (((s', ms), sz), eo)
+  | (s', _) -> (((s', []), Z0), None)
+
+let far_time = z_of_string "4000000000000000000"
+
 let observe_dir st (l : seg list) (ro : bool) : string list =
   (* mirror of kvrun observeDir *)
   let p = params_of st in
@@ -425,7 +439,7 @@ let step st (f : string array) : string list =
   | "delm" ->
     (match get_cfg st.s with
      | Err e -> [err e]
-     | Ok _ -> [fmt_trim st.s.segs (log_delete_multi h st.s (parse_offsets (a 1))) st])
+     | Ok _ -> [fmt_trim st.s.segs (xdel_of (xh_step h st.s (XDeleteMulti (parse_offsets (a 1))))) st])
   | "size" ->
     (match get_cfg st.s with
      | Err e -> [err e]
@@ -437,7 +451,20 @@ let step st (f : string array) : string list =
   | "trimo" | "trimc" | "trims" | "trima" | "cupd" | "cdel" ->
     (match get_cfg st.s with
      | Err e -> [err e]
-     | Ok _ -> [fmt_trim st.s.segs (trim_multi h (find_fn (a 0) (z_of_string (a 1))) st.s) st])
+     | Ok _ -> [fmt_trim st.s.segs (xdel_of (xh_step h st.s (xop_of (a 0) (z_of_string (a 1))))) st])
+  | "compact" ->
+    (* compact.go Compact with both cut-offs later than every message: the step XCompact of XHistory.v *)
+    let segs0 = st.s.segs in
+    (match get_cfg st.s with
+     | Err e -> [err e]
+     | Ok _ ->
+       let (((s', ms), _), eo) = xdel_of (xh_step h st.s (XCompact (far_time, far_time))) in
+       st.s <- s';
+       (* the implementation reports nothing: the harness reads the removed messages off two scans, in offset order *)
+       let ms = List.sort (fun x y -> match Z.compare x.moff y.moff with Lt -> -1 | Eq -> 0 | Gt -> 1) ms in
+       (match eo with
+        | None -> [Printf.sprintf "ok - %s%s" (vers_of segs0 ms) (fmt_msgs ms)]
+        | Some e -> [err e]))
   | "trim1o" | "trim1c" | "trim1s" | "trim1a" | "c1upd" | "c1del" ->
     let segs0 = st.s.segs in
     (match find_fn (a 0) (z_of_string (a 1)) st.s with
@@ -944,6 +971,22 @@ let run_check (path : string) =
         chk "C16" "updates_bound" ((let rest = List.filter (fun m -> Z.leb m.mtime argz) c.a.live in
                                        List.for_all (fun m ->
                                            List.length (List.filter (fun x -> x.mkey = m.mkey) rest) <= 1) rest)) r
+    | ["compact"] ->
+      (* Compact with both cut-offs after every message: exactly one message per key is left, the last one, and not
+         even that when it has no value (a message without value means 'absent') *)
+      (match r with
+       | "ok" :: _ :: _ :: ms ->
+         let msl = List.map parse_full_msg ms in
+         let before = apply_deleted "C16" msl r in
+         if not c.tainted then begin
+           chk "C16" "latest_preserved" (check_latest_preserved before c.a.live) r;
+           let rec last_of k = function
+             | [] -> None
+             | m :: rest -> (match last_of k rest with Some x -> Some x | None -> if m.mkey = k then Some m else None) in
+           let expect = List.filter (fun m -> m.mval <> [] && last_of m.mkey before = Some m) before in
+           chk "C16" "compact_leaves_the_last_valued_message_of_every_key" (c.a.live = expect) r
+         end
+       | _ -> if not c.tainted then chk "C16" "compact_ok" false r)
     | ["backup"; name] | ["backupdir"; name] ->
       (match r with
        | "ok" :: _ -> c.bk <- (name, c.a) :: List.remove_assoc name c.bk
